@@ -20,7 +20,7 @@ Section Env.
     plain o -> (od_env o = [] \/ getenv (od_env o) = []) ->
     initial_state o = mkState (od_default o) false [].
   Proof.
-    unfold plain, Build.initial_state, Build.env_state. intros -> H.
+    unfold plain, Build.initial_state, Build.env_state, Build.apply_setcalled. intros -> H.
     destruct (od_env o) as [|c n] eqn:E; [reflexivity|].
     destruct H as [H|H]; [discriminate|]. rewrite H. reflexivity.
   Qed.
@@ -36,7 +36,7 @@ Section Env.
     conv pf (od_kind o) v = Some x ->
     initial_state o = mkState x true (od_env o).
   Proof.
-    unfold plain, Build.initial_state, Build.env_state. intros -> Ne Gv Nv K Vd Cv.
+    unfold plain, Build.initial_state, Build.env_state, Build.apply_setcalled. intros -> Ne Gv Nv K Vd Cv.
     destruct (od_env o) as [|c n] eqn:E; [congruence|]. rewrite Gv.
     destruct v as [|v0 v']; [congruence|].
     assert (Sv : save pf false (spec_of o) (mkState (od_default o) false []) [v0 :: v'] = Ok (mkState x false [])).
@@ -55,7 +55,7 @@ Section Env.
     conv pf (od_kind o) v = None ->
     o_val (initial_state o) = od_default o.
   Proof.
-    unfold plain, Build.initial_state, Build.env_state. intros -> Ne Gv Nv K Vd Cv.
+    unfold plain, Build.initial_state, Build.env_state, Build.apply_setcalled. intros -> Ne Gv Nv K Vd Cv.
     destruct (od_env o) as [|c n] eqn:E; [congruence|]. rewrite Gv.
     destruct v as [|v0 v']; [congruence|].
     assert (Sv : exists e : err, save pf false (spec_of o) (mkState (od_default o) false []) [v0 :: v'] = Err e).
@@ -73,7 +73,7 @@ Section Env.
     to_lower v = (if b then s2l "true" else s2l "false") ->
     initial_state o = mkState (VBool b) true (od_env o).
   Proof.
-    unfold plain, Build.initial_state, Build.env_state. intros -> Ne Gv Nv K Vd L.
+    unfold plain, Build.initial_state, Build.env_state, Build.apply_setcalled. intros -> Ne Gv Nv K Vd L.
     destruct (od_env o) as [|c n] eqn:E; [congruence|]. rewrite Gv.
     destruct v as [|v0 v']; [congruence|]. rewrite K, L.
     destruct b; simpl; unfold save, valid_ok; simpl os_valid; rewrite Vd; simpl; rewrite K; reflexivity.
@@ -85,7 +85,7 @@ Section Env.
     str_eqb (to_lower v) (s2l "true") = false -> str_eqb (to_lower v) (s2l "false") = false ->
     initial_state o = mkState (od_default o) false [].
   Proof.
-    unfold plain, Build.initial_state, Build.env_state. intros -> K Gv T F.
+    unfold plain, Build.initial_state, Build.env_state, Build.apply_setcalled. intros -> K Gv T F.
     destruct (od_env o) as [|c n] eqn:E; [reflexivity|]. rewrite Gv.
     destruct v as [|v0 v']; [reflexivity|]. rewrite K, T, F. reflexivity.
   Qed.
@@ -95,11 +95,45 @@ Section Env.
     plain o -> env_scalar (od_kind o) = false -> od_kind o <> KBool ->
     initial_state o = mkState (od_default o) false [].
   Proof.
-    unfold plain, Build.initial_state, Build.env_state. intros -> K NB.
+    unfold plain, Build.initial_state, Build.env_state, Build.apply_setcalled. intros -> K NB.
     destruct (od_env o) as [|c n]; [reflexivity|].
     destruct (getenv (c :: n)); [reflexivity|].
     destruct (od_kind o); try discriminate; try congruence; reflexivity.
   Qed.
+  (* modifier order.  SetCalled written BEFORE GetEnv does not shadow a bound variable: the
+     variable's text, Called and CalledAs are what the definition leaves ... *)
+  Theorem env_valid_after_setcalled o v x b :
+    od_setcalled o = Some (b, true) -> od_env o <> [] -> getenv (od_env o) = v -> v <> [] ->
+    env_scalar (od_kind o) = true -> od_valid o = [] ->
+    conv pf (od_kind o) v = Some x ->
+    initial_state o = mkState x true (od_env o).
+  Proof.
+    unfold Build.initial_state, Build.env_state, Build.apply_setcalled. intros -> Ne Gv Nv K Vd Cv. cbn [Bool.eqb o_val o_used o_called].
+    destruct (od_env o) as [|c n] eqn:E; [congruence|]. rewrite Gv.
+    destruct v as [|v0 v']; [congruence|].
+    assert (Sv : save pf false (spec_of o) (mkState (od_default o) b []) [v0 :: v'] = Ok (mkState x b [])).
+    { rewrite (save_scalar pf false (spec_of o) _ (v0 :: v')).
+      - simpl os_kind. rewrite Cv. reflexivity.
+      - simpl. destruct (od_kind o); try discriminate; reflexivity.
+      - unfold valid_ok. simpl os_valid. rewrite Vd. reflexivity. }
+    destruct (od_kind o); try discriminate; rewrite Sv; reflexivity.
+  Qed.
+
+  (* ... and when the variable is unset or empty the SetCalled value stands, with the default *)
+  Theorem env_absent_setcalled o b f :
+    od_setcalled o = Some (b, f) -> (od_env o = [] \/ getenv (od_env o) = []) ->
+    initial_state o = mkState (od_default o) b [].
+  Proof.
+    unfold Build.initial_state, Build.env_state, Build.apply_setcalled. intros -> H.
+    destruct (od_env o) as [|c n] eqn:E; [destruct f; reflexivity|].
+    destruct H as [H|H]; [discriminate|]. rewrite H. destruct f; reflexivity.
+  Qed.
+
+  (* SetCalled written AFTER GetEnv overrides the Called flag; the variable's value stays *)
+  Theorem setcalled_after_env o b :
+    od_setcalled o = Some (b, false) ->
+    o_called (initial_state o) = b /\ o_val (initial_state o) = o_val (env_state o (spec_of o) (mkState (od_default o) false [])).
+  Proof. unfold Build.initial_state, Build.apply_setcalled. intros ->. cbn [Bool.eqb o_val o_used o_called]. split; reflexivity. Qed.
 End Env.
 
 (* the command line wins: whatever state the definition left, `--name=v` overwrites the value
